@@ -63,6 +63,7 @@ type Runner struct {
 	kfHit map[string]bool
 	extra  string
 	serial bool
+	one    bool // re-execution of a single stored case: no sampling
 	tlclog *os.File
 }
 
@@ -368,6 +369,7 @@ func replayOne(cfg Config, path string) int {
 	}
 	r := NewRunner(cfg)
 	r.extra = v.X
+	r.one = true
 	r.serial = optVal(v.X, "serial", "") == "1"
 	l, _, err := parseTLCLine(string(v.Line))
 	if err != nil {
